@@ -750,6 +750,20 @@ pub fn build_session(defs: &[Def]) -> Result<Session, String> {
     Ok(Session { ctx, env })
 }
 
+/// true when the reference evaluation of `e` finishes within the fuel bound under both readings of
+/// function values (the implementation cannot be interrupted, so only such inputs are run)
+pub fn terminates(env: &Env, e: &E) -> bool {
+    for late in [false, true] {
+        let mut r = Ref { late_fn_refs: late, latest: env.clone(), fuel: 20_000, depth: 0 };
+        if let Err(Raise(m)) = r.eval(e, env) {
+            if m == "fuel" || m.starts_with("machinery") || m.contains("depth") {
+                return false;
+            }
+        }
+    }
+    true
+}
+
 pub fn judge(base: &numbat::Context, env: &Env, e: &E) -> Result<&'static str, String> {
     let mut r = Ref { late_fn_refs: false, latest: env.clone(), fuel: 20_000, depth: 0 };
     let want = match r.eval(e, env) {
